@@ -50,7 +50,16 @@ CHECKS = {
         design="3/C08"),
 }
 
-NOT_APPLICABLE = []
+# further entries: one file manifest.d/Cxx.json per property {"text","note","technique","design"};
+# properties without an entry are listed under not_applicable with the reason in manifest.d/pending.json
+import glob, os
+HERE = os.path.dirname(os.path.abspath(__file__))
+for _f in sorted(glob.glob(os.path.join(HERE, "manifest.d", "C[0-9][0-9].json"))):
+    CHECKS[os.path.basename(_f)[:3]] = json.load(open(_f))
+_pending = json.load(open(os.path.join(HERE, "manifest.d", "pending.json")))
+ALL = ["C%02d" % i for i in range(1, 21)]
+NOT_APPLICABLE = [{"property_id": p, "reason": _pending.get(p, "no check has been completed for this property yet")}
+                  for p in ALL if p not in CHECKS]
 
 def main():
     checks = []
@@ -87,7 +96,7 @@ def main():
         "notes": "fix: commits in /repo and recorded findings are listed in /verif/known_findings.json; see DESIGN.md section 4",
         "not_applicable": NOT_APPLICABLE,
     }
-    with open("MANIFEST.json", "w") as f:
+    with open(os.path.join(HERE, "MANIFEST.json"), "w") as f:
         json.dump(man, f, indent=1)
     print("MANIFEST.json written:", len(checks), "checks")
 
